@@ -1,5 +1,6 @@
 import BHS.Props.C09
 import BHS.Props.AuthMw
+import BHS.Props.TokenStore
 open BHS.Props.C09
 #print axioms C09_mediated
 #print axioms C09_valid_passes
@@ -27,3 +28,13 @@ open BHS.Props.C09
 #print axioms BHS.Props.AuthMw.C09_mediated_generated
 #print axioms BHS.Props.AuthMw.C09_valid_passes_generated
 #print axioms BHS.Props.AuthMw.C09_admin_generated
+#print axioms BHS.Props.TokenStore.token_lookup_exact
+#print axioms BHS.Props.TokenStore.token_lookup_sound
+#print axioms BHS.Props.TokenStore.repoAt_spec
+#print axioms BHS.Props.TokenStore.middleware_fail_closed
+#print axioms BHS.Props.TokenStore.ws_fail_closed
+#print axioms BHS.Props.TokenStore.composed_authorize
+#print axioms BHS.Props.TokenStore.new_service_writes_nothing
+#print axioms BHS.Props.TokenStore.wired_eq
+#print axioms BHS.Props.TokenStore.driver_crosscheck
+#print axioms BHS.Props.AuthMw.AuthMw_render_of_spec
